@@ -18,6 +18,15 @@ Proof. reflexivity. Qed.
 Lemma qval_zero : qval (NInt 0) = qi_zero.
 Proof. reflexivity. Qed.
 
+Lemma dinv_b_dinv : forall d, dinv_b d = true -> dinv d.
+Proof.
+  intros d H. unfold dinv_b in H. apply andb_prop in H. destruct H as [H N]. rewrite forallb_forall in H.
+  split; [| |exact N].
+  - intros p Hp. specialize (H p Hp). apply andb_prop in H. destruct H as [H _]. apply andb_prop in H. tauto.
+  - intros p Hp. specialize (H p Hp). apply andb_prop in H. destruct H as [H Z]. apply andb_prop in H. destruct H as [_ X].
+    split; [exact X|]. destruct (num_is_zero (snd p)); [discriminate Z | reflexivity].
+Qed.
+
 (* ---------- the number-level calls ---------- *)
 Lemma c_mulnum : forall x y z, g_mulnum x y = Ok z ->
   xok x = true /\ xok y = true /\ xok z = true /\ qi_eq (qval z) (qi_mul (qval x) (qval y)).
@@ -113,7 +122,13 @@ Section Sound.
     wf t = true /\ qi_eq (den t) (qi_add (qval c) (wsum den d)).
   Proof.
     intros c d t H. apply guard_ok in H. destruct H as [Gd H]. injection H as <-.
-    apply andb_prop in Gd. destruct Gd as [Xc D]. split; [apply wf_afd; assumption | apply den_afd; assumption].
+    apply andb_prop in Gd. destruct Gd as [Xc D].
+    destruct (adict_ok d) eqn:AD; [split; [apply wf_afd; assumption | apply den_afd; assumption]|].
+    cbn [orb] in D. apply andb_prop in D. destruct D as [Db L].
+    assert (E : add_from_dict c d = EAdd c d).
+    { destruct d as [|[k v] [|q r]]; [rewrite aok_nil in AD; discriminate AD | | reflexivity].
+      cbn [add_from_dict]. cbn in L. destruct (num_is_zero c); [discriminate L | reflexivity]. }
+    rewrite E. split; [apply wf_EAdd_intro; [exact Xc | apply dinv_b_dinv; exact Db] | apply eq_subrelation; [typeclasses eauto | apply denote_EAdd]].
   Qed.
 
   (* ---------- the visitor's state ---------- *)
